@@ -45,7 +45,7 @@ ASSUMPTIONS = ["every exit block writes the ABI output registers (r = r, sp = sp
 
 ALPHA_FULL = ["a=b", "a=a+1", "swap", "r=a", "b=1", "@[sp+4]=a", "a=@[sp+4]", "@[a]=b", "r=call(a)", "sp=sp-4", "sp=sp+4"]
 FUEL = 10
-PIPELINES = ("common", "ssa")
+PIPELINES = ("common", "ssa", "ssa-outregs")
 
 VALS = [0, 1, 2, 0xFFFFFFFF]
 SPS = [0x1000, 0xFFFFFFFC]            # second value: @[sp+4] is @[0], which a in {0,1,2,0xFFFFFFFF} equals / overlaps
@@ -54,27 +54,32 @@ MEMS = ["pattern", "zero"]            # initial content of the bytes at sp+4 .. 
 
 # ------------------------------------------------------------------ graphs
 
-def add_epilogue(ircfg, loc_db, out_regs):
-    """Every leaf gets {reg = reg for the ABI output registers} just before its IRDst assignment."""
+def add_epilogue(ircfg, loc_db, epilogue):
+    """Every leaf gets the AssignBlocks of @epilogue (list of dicts) just before its IRDst assignment."""
     from miasm.ir.ir import IRBlock, AssignBlock
     for lk in list(ircfg.blocks):
         if ircfg.successors(lk):
             continue
         blk = ircfg.blocks[lk]
         abs_ = list(blk)
-        epi = AssignBlock(dict((r, r) for r in out_regs), abs_[-1].instr)
         pos = len(abs_)
         for i, ab in enumerate(abs_):
             if ircfg.IRDst in ab:
                 pos = i
-        abs_.insert(pos, epi)
+        abs_[pos:pos] = [AssignBlock(dict(d), abs_[-1].instr) for d in epilogue]
         ircfg.blocks[lk] = IRBlock(loc_db, lk, abs_)
+
+
+def fake_epilogue(A):
+    """add r, a ; ret : both ABI output registers are written (not by an identity) in the exit block."""
+    import miasm.expression.expression as m
+    return [{A.r: A.r + A.a}, {A.sp: A.sp + m.ExprInt(4, 32)}]
 
 
 def build_graph(n, shape_idx, body_idx, cond_idx, alphabet, conds):
     shape = irgen.shapes(n)[shape_idx]
     g = irgen.build(shape, body_idx, cond_idx, alphabet, conds)
-    add_epilogue(g.ircfg, g.loc_db, [g.arch.r, g.arch.sp])
+    add_epilogue(g.ircfg, g.loc_db, fake_epilogue(g.arch))
     return g
 
 
@@ -207,7 +212,7 @@ def differential(desc, case, pipeline, kind, it0, it1, g0_ircfg, head0, out, hea
             return [violation("%s:exit-differs:%s" % (pipeline, kind),
                               "%s: exit %r in the original, %r simplified (state %s); simplified: %s" % (desc, r0.exit, r1.exit, stxt, graph_text(out)), case)]
         if r1.writes != r0.writes:
-            return [violation("%s:memory-writes-differ:%s:%s" % (pipeline, _wclass(r0.writes, r1.writes), kind),
+            return [violation("%s:memory-writes-differ:%s:%s" % (pipeline, _wclass(r0.writes, r1.writes, mem, it0.default_mem), kind),
                               "%s: memory writes %s in the original, %s simplified (state %s); simplified: %s" % (
                                   desc, _w(r0.writes), _w(r1.writes), stxt, graph_text(out)), case)]
         if r1.calls != r0.calls:
@@ -227,8 +232,25 @@ def _w(ws):
     return "[%s]" % ", ".join("@%d[%#x]=%#x" % (s, a, v) for a, s, v in ws)
 
 
-def _wclass(w0, w1):
+def _wclass(w0, w1, mem, default_mem):
+    """Class of a difference between two write sequences; a write is silent when it stores what the bytes already hold."""
     if len(w1) < len(w0):
+        cur = dict(mem)
+        loud = []
+        for a, s, v in w0:
+            old = 0
+            for i in range(s // 8):
+                x = (a + i) & 0xFFFFFFFF
+                b = cur.get(x)
+                old |= (default_mem(x) if b is None else b) << (8 * i)
+                cur[x] = (v >> (8 * i)) & 0xFF
+            if old != v:
+                loud.append((a, s, v))
+        # every loud write must survive, in order, and nothing else may appear
+        it = iter(w0)
+        sub = all(any(x == y for y in it) for x in w1)
+        if sub and [x for x in w1 if x in loud] == loud:
+            return "silent-store-dropped"
         return "write-lost"
     if len(w1) > len(w0):
         return "write-added"
@@ -242,8 +264,10 @@ def used_entries(body_idx, alphabet):
 
 
 def check_graph(n, shape_idx, body_idx, cond_idx, alphabet, conds, pipelines=PIPELINES):
+    pipelines = tuple(pipelines)
     shape = irgen.shapes(n)[shape_idx]
-    case = {"kind": "irgen", "n": n, "shape": shape_idx, "bodies": body_idx, "conds": cond_idx, "alphabet": alphabet, "condnames": conds}
+    case = {"kind": "irgen", "n": n, "shape": shape_idx, "bodies": body_idx, "conds": cond_idx, "alphabet": alphabet, "condnames": conds,
+            "pipelines": list(pipelines)}
     desc0 = irgen.describe(shape, body_idx, cond_idx, alphabet, conds)
     kind = "loop" if not irgen.shape_is_loop_free(shape) else "dag"
     info = {"states": 0, "skipped_states": 0, "compared": 0, "runs_with_writes": 0, "runs_with_calls": 0, "changed": 0, "raised": 0}
@@ -254,7 +278,7 @@ def check_graph(n, shape_idx, body_idx, cond_idx, alphabet, conds, pipelines=PIP
     for pipeline in pipelines:
         desc = "[%s] %s" % (pipeline, desc0)
         g = build_graph(n, shape_idx, body_idx, cond_idx, alphabet, conds)
-        lifter = g.lifter if pipeline == "common" else out_regs_lifter(type(g.lifter), g.loc_db)
+        lifter = out_regs_lifter(type(g.lifter), g.loc_db) if pipeline == "ssa-outregs" else g.lifter
         try:
             out, var2orig = run_pipeline(pipeline, lifter, g.ircfg, g.head)
         except Exception as e:
@@ -285,7 +309,7 @@ def check_x86(idx, pipelines=PIPELINES):
     before = graph_text(f0.ircfg)
     for pipeline in pipelines:
         desc = "[%s] x86_32 function %s { %s }" % (pipeline, name, x86funcs.FUNCS[idx][1].strip().replace("\n", "; "))
-        f = x86funcs.lift(idx, lifter_factory=(None if pipeline == "common" else out_regs_lifter))
+        f = x86funcs.lift(idx, lifter_factory=(out_regs_lifter if pipeline == "ssa-outregs" else None))
         add_epilogue(f.ircfg, f.loc_db, [f.regs.EAX, f.regs.ESP])
         try:
             out, var2orig = run_pipeline(pipeline, f.lifter, f.ircfg, f.head)
@@ -311,7 +335,7 @@ def _shard(args):
             sigs[x["sig"]] = sigs.get(x["sig"], 0) + 1
         from mc import x86funcs
         return 1, 1 if info["changed"] and info["compared"] else 0, v, "x86:" + x86funcs.FUNCS[args[1]][0], sigs, info
-    _, n, maxlen, alphabet, conds, lo, hi = args
+    _, n, maxlen, alphabet, conds, lo, hi, pipelines = args
     shapes = irgen.shapes(n)
     bl = irgen.bodies(alphabet, maxlen)
     cnt = nt = 0
@@ -327,7 +351,7 @@ def _shard(args):
         for body_idx in itertools.product(bl, repeat=n):
             for cond_idx in itertools.product(*[range(k) for k in ncond]):
                 cnt += 1
-                v, info = check_graph(n, si, body_idx, cond_idx, alphabet, conds)
+                v, info = check_graph(n, si, body_idx, cond_idx, alphabet, conds, pipelines)
                 for k, x in info.items():
                     tot[k] = tot.get(k, 0) + x
                 if info["changed"] and info["compared"]:
@@ -361,11 +385,11 @@ PLAN_T = [
 def run(ctx):
     plan = PLAN_Q if ctx.quick else PLAN_T
     shards = []
-    for n, maxlen, alphabet, conds in plan:
+    for n, maxlen, alphabet, conds, pipelines in plan:
         ns = len(irgen.shapes(n))
         idx = [i for i in range(ns) if irgen.shape_has_exit(irgen.shapes(n)[i])]
         for i in idx:
-            shards.append(("irgen", n, maxlen, alphabet, conds, i, i + 1))
+            shards.append(("irgen", n, maxlen, alphabet, conds, i, i + 1, pipelines))
     nx86 = 0
     if not ctx.quick:
         from mc import x86funcs
@@ -406,4 +430,4 @@ def replay(case):
     if case.get("kind") == "x86":
         return check_x86(case["index"])[0]
     return check_graph(case["n"], case["shape"], tuple(tuple(b) for b in case["bodies"]), tuple(case["conds"]), list(case["alphabet"]),
-                       list(case["condnames"]))[0]
+                       list(case["condnames"]), tuple(case.get("pipelines", PIPELINES)))[0]
